@@ -41,6 +41,14 @@ func ruleC14Transitions(cx *Ctx) {
 				if len(a) == 1 {
 					k, isK = constInt(a[0])
 				}
+				// the two processing states exist only inside a maintenance run (which resolves them at its end): the code
+				// that stores the drain-cap marker is maintenance or something only maintenance calls. Stored from anywhere else
+				// nothing ever resolves it - writers read it as "a drain is running" and never schedule one
+				if isK && k == st.pToRequired {
+					if maint := cx.P.Func("", "cache", "maintenance"); maint != nil {
+						cx.R.Check(onlyWithin(cx, outermost(fn), maint, 0), rule, name, fmt.Sprintf("store#%d only inside a maintenance run", n), cx.P.where(in), "processingToRequired is stored only by maintenance or code reached only from it")
+					}
+				}
 				cx.R.Check(isK && allowedStore[k], rule, name, fmt.Sprintf("store#%d", n), cx.P.where(in), "the status is stored only as processingToIdle (a run begins), required (a run ends with work left) or processingToRequired (the drain cap): a constant, never a value read earlier"+map[bool]string{true: " (stores " + names[k] + ")", false: ""}[isK])
 			}
 			if atomicOp(in, ds, "CompareAndSwap") {
